@@ -4,7 +4,7 @@ import json
 from vlib import core
 
 META = {
-    "disabled": True,
+    "disabled": False,
     "level": "model_checking",
     "level_text": "ParExtract.tla models a parallel extraction call as rayon-style workers that take tasks in any order (one per name, or one "
                   "per chunk of B names), open a private handle, seek + read in two steps, and Put the result into the slot of its request; "
@@ -65,7 +65,7 @@ def run(ctx, cases=None):
         "calls_by_interface_and_result": ifaces,
         "distinct_nontrivial": ncases,
         "rule": "one case = one configuration (interface, archive, threads, batch, |req|, skip, missing position, duplicates), distinct by set "
-                "enumeration in TLC; each is run 2 (quick) / 12 (thorough; 2 for |req| > 500) times",
+                "enumeration in TLC; each is run 2 (quick) / 6 (thorough; 2 for |req| > 500) times",
         "exhaustive": False,
     }
     assumptions = ["the sequential reference is Archive::read_file on one plain handle (C01 is about whether that is right)",
